@@ -86,7 +86,9 @@ class Ctx:
         log("built %s in %.0fs" % (",".join(bins), dt))
 
     def harness(self, binname, *args, timeout=1200, env=None):
-        exe = os.path.join(HARNESS, "target", "debug", binname)
+        # VERIF_HARNESS_BIN_DIR: survey-only override (bin/cov-survey runs instrumented copies of the
+        # same binaries); registered commands never set it.
+        exe = os.path.join(os.environ.get("VERIF_HARNESS_BIN_DIR") or os.path.join(HARNESS, "target", "debug"), binname)
         rc, out, dt = run([exe] + [str(a) for a in args], cwd=self.work, timeout=timeout, env=env)
         if rc != 0:
             raise ToolError("harness %s %s exited %d\n%s" % (binname, " ".join(map(str, args)), rc, out[-4000:]))
@@ -337,7 +339,7 @@ class Ctx:
                 print("VIOLATION property=%s replay=%s" % (self.pid, rp), flush=True)
                 print("  %s  (%d occurrence(s))" % (vs[0].desc, len(vs)), flush=True)
             ev["violation_signatures"] = sorted(by_sig)
-        if write_evidence:
+        if write_evidence and os.environ.get("VERIF_NO_EVIDENCE") != "1":   # survey runs (bin/cov-survey, bin/mutant-run) leave evidence alone
             with open(os.path.join(EVIDENCE, "%s.json" % self.pid), "w") as f:
                 json.dump(ev, f, indent=1)
         if os.environ.get("VERIF_KEEP_WORK") != "1":
